@@ -88,7 +88,12 @@ pub(crate) fn search_dictionary(
         "^{}[অআইঈউঊঋএঐওঔঌৡািীুূৃেৈোৌকখগঘঙচছজঝঞটঠডঢণতথদধনপফবভমযরলশষসহৎড়ঢ়য়ংঃঁ\u{09CD}]{{0,{}}}$",
         word, need_chars_upto
     );
-    let rgx = Regex::new(&regex).unwrap();
+    let rgx = match Regex::new(&regex) {
+        Ok(rgx) => rgx,
+        // The pattern of a very long word exceeds the size limit of the regex engine,
+        // there is nothing to find in the dictionary for it anyway.
+        Err(_) => return,
+    };
 
     let words = data.get_words_for(table).filter(|i| rgx.is_match(i));
 
